@@ -500,6 +500,10 @@ func genJSONFor(r *rand.Rand, t *tdesc, sb *strings.Builder, depth int) {
 			sb.WriteString(`"zz_unknown":[1,{"a":null}]`)
 		}
 		sb.WriteByte('}')
+	case "cat:text", "cat:appender":
+		sb.WriteString([]string{`"k1"`, `""`, `"plain"`}[r.IntN(3)])
+	case "cat:marshaler", "cat:ptrmarshaler", "cat:marshalerto":
+		sb.WriteString([]string{`1`, `"x"`, `{"a":[1]}`, `[true]`}[r.IntN(4)])
 	default: // integers: values that fit every width
 		if strings.HasPrefix(t.K, "uint") {
 			sb.WriteString(strconv.Itoa(r.IntN(128)))
